@@ -18,4 +18,6 @@ CONSTANTS
   AttOpts = {"none", "c1", "c12", "c0", "c1e4"}
   OkRecomputed = FALSE
   ParentForcesChildDebug = FALSE
+  PreOpts = {}
+  AliasedDefaults = FALSE
 INVARIANT InvReturnedWellFormed
